@@ -1,4 +1,6 @@
-import ShuttleProofs.Lemmas.SemRun
+import ShuttleProofs.Lemmas.SemFrame
+import ShuttleProofs.Lemmas.SemNFrame
+import ShuttleProofs.Lemmas.SemProg
 /-
   C18 — BatchSemaphore (`shuttle-engine/src/future/batch_semaphore.rs`, model
   `ShuttleModel/Prim/Sem.lean`).
@@ -265,6 +267,59 @@ example : effsOf fin0 (SemState.new 2 true []) opsFair =
     [[], [], [], [], [], [.joinClock 2 [2], .unblock 2, .wake 2, .joinClock 3 [2], .unblock 3, .wake 3]] := by
   decide
 
+theorem order_prefix {pre rest : List Nat} {a b : Nat} :
+    ∀ {l A B C : List Nat}, l.Nodup → l = pre ++ rest → l = A ++ a :: (B ++ b :: C) → b ∈ pre →
+      a ∈ pre := by
+  induction pre with
+  | nil => intro l A B C _ _ _ hb; cases hb
+  | cons x pre ih =>
+    intro l A B C hnd hl hord hb
+    cases A with
+    | nil =>
+      rw [hl] at hord
+      simp only [List.cons_append, List.nil_append, List.cons.injEq] at hord
+      rw [← hord.1]; exact List.mem_cons_self ..
+    | cons y A =>
+      rw [hl] at hord hnd
+      simp only [List.cons_append, List.cons.injEq] at hord
+      obtain ⟨hxy, htl⟩ := hord
+      have hnd' := (List.nodup_cons.mp hnd)
+      rcases List.mem_cons.mp hb with hbx | hb'
+      · exfalso
+        apply hnd'.1
+        show x ∈ pre ++ rest
+        rw [htl, ← hbx]
+        simp
+      · exact List.mem_cons_of_mem _ (ih hnd'.2 rfl htl hb')
+
+/-- no overtaking, spelled out: if `a` is queued before `b` in a strictly fair semaphore and a
+`release` takes `b` out of the queue (grants it, or discards it as stale), it takes `a` out too -/
+theorem fair_no_overtaking {n : Nat} {s0 : SemState} (h0 : Initial n s0) {g : G} (hr : Reach s0 g)
+    (fin : Nat → Bool) (hf : g.s.fair = true) {task k : Nat} {c : Clock} {o : StepOut} (hk : 0 < k)
+    (h : step fin g.s (.release task k c) = .ok o) {a b : Nat} {A B C : List Nat}
+    (hord : g.s.queue = A ++ a :: (B ++ b :: C)) (hb : b ∉ o.s.queue) : a ∉ o.s.queue := by
+  have hi := (reach_Inv h0 hr).1
+  obtain ⟨pre, hp, _, _, _⟩ := (fair_fifo h0 hr fin).2.2 hf task k c o hk h
+  have hbq : b ∈ g.s.queue := by rw [hord]; simp
+  have hbpre : b ∈ pre := by
+    rw [hp] at hbq
+    rcases List.mem_append.mp hbq with h1 | h1
+    · exact h1
+    · exact absurd h1 hb
+  have hapre : a ∈ pre := order_prefix hi.tq.nodupQ hp hord hbpre
+  intro ha
+  have hnd := hi.tq.nodupQ
+  rw [hp, List.nodup_append] at hnd
+  exact hnd.2.2 a hapre a ha rfl
+
+/-- the amount an `Acquire` asks for never changes, and waiters only come from `Acquire::new`: a
+property of the requested amounts that holds for every created waiter holds for the whole table -/
+theorem request_amount_immutable {n : Nat} {s0 : SemState} (h0 : Initial n s0) {g : G}
+    (hr : Reach s0 g) (P : Nat → Prop) (fin : Nat → Bool) {op : SemOp} {o : StepOut}
+    (h : ∀ w ∈ g.s.table, P w.n) (hnew : ∀ task k c, op = .newAcq task k c → P k)
+    (hs : step fin g.s op = .ok o) : ∀ w ∈ o.s.table, P w.n :=
+  step_allN P fin (reach_Inv h0 hr).1 h hnew hs
+
 /-! ### unfair semaphores -/
 
 /-- an unfair `release(k)` changes nothing but the permits, and unblocks (and wakes) exactly the
@@ -294,8 +349,8 @@ example : effsOf fin0 (SemState.new 0 false [])
 
 /-! ### cancellation -/
 
-/-- `Drop for Acquire` in any reachable state: (a) the step (if it does not hit one of the model's
-assertion branches) leaves no trace — the waiter is in neither queue nor table, so it cannot stay
+/-- `Drop for Acquire` in any reachable state: (a) the step (which is always defined, see
+`no_internal_assertion_fails`) leaves no trace — the waiter is in neither queue nor table, so it cannot stay
 `is_queued` —, keeps every invariant and the permit balance; (b) dropping the head of a strictly
 fair semaphore serves the successors that now fit, in order, and re-establishes invariant (1):
 the waiters behind it are never stranded; (c) dropping a granted but uncompleted acquisition hands
@@ -385,6 +440,29 @@ example : ∃ g, Reach (SemState.new 0 true []) g ∧ g.s.closed = true ∧ g.s.
   ⟨finalOf fin0 _ opsClose, finalOf_reach (by decide), by decide, by decide, by decide⟩
 example : effsOf fin0 (SemState.new 0 true []) opsClose = [[], [], [.unblock 1, .wake 1]] := by decide
 
+/-- The poisoning `release` (a guard dropped while `should_stop()`) also closes the semaphore and
+empties the queue, but — unlike `close` — performs NO kernel effect: the pending acquisitions are
+neither failed nor woken, their tasks stay blocked (known finding F11; the source says "we should
+not unblock the threads at this point").  So "close fails every pending acquisition" holds for
+`close` only. -/
+theorem poison_release_wakes_nobody {n : Nat} {s0 : SemState} (h0 : Initial n s0) {g : G}
+    (hr : Reach s0 g) (fin : Nat → Bool) (task k : Nat) (hk : 0 < k) :
+    ∃ o, step fin g.s (.poisonRelease task k) = .ok o ∧ o.effs = [] ∧ o.s.closed = true ∧
+      o.s.queue = [] ∧ o.s.avail = g.s.avail + k := by
+  have hi := (reach_Inv h0 hr).1
+  refine ⟨{ s := g.s.releasePoison k, out := .done }, ?_, rfl, (releasePoison_spec k hi).2.2.1,
+    (releasePoison_spec k hi).2.2.2, ?_⟩
+  · simp only [step]; rw [if_neg (by omega)]
+  · rw [releasePoison_eq]
+    have cs := clear_spec (fun w => { w with isQueued := false })
+      (fun w => ⟨rfl, rfl, rfl⟩) (g.s.paRelease k Clock.new).queue (g.s.paRelease k Clock.new)
+      g.s.nextWid hi.tq
+    exact cs.avail
+
+/-- a queued waiter, then a poisoning release: nobody is woken, the waiter is simply forgotten -/
+example : effsOf fin0 (SemState.new 0 true []) [.newAcq 1 1 [], .poll 0 1 1 [], .poisonRelease 2 1]
+    = [[], [], []] := by decide
+
 /-! ### the task released is the one currently awaiting -/
 
 /-- a poll that returns `Pending` (re)points the waiter at the polling task `me` and at the waker
@@ -423,12 +501,94 @@ theorem wakes_current_poller {n : Nat} {s0 : SemState} (h0 : Initial n s0) {g : 
     | stale w' hw' hf' _ => rw [hw] at hw'; cases hw'; rw [hfin] at hf'; cases hf'
     | granted w' hw' hf' hr' hu hwk => rw [hw] at hw'; cases hw'; exact ⟨hu, hwk, hr'⟩
 
+/-- … and nobody else touches a waiter while it stays queued: after any step other than a poll of
+this very `Acquire`, a waiter that is still in the queue has exactly the table entry it had
+before — so at the moment it is granted, `task_id` / `waker` are those of its latest poll. -/
+theorem waiter_untouched_by_others {n : Nat} {s0 : SemState} (h0 : Initial n s0) {g : G}
+    (hr : Reach s0 g) (fin : Nat → Bool) {op : SemOp} {o : StepOut} (h : step fin g.s op = .ok o)
+    {wid : Nat} {w : Waiter} (hw : g.s.getW wid = some w) (hq : wid ∈ o.s.queue)
+    (hop : ∀ me cx c, op ≠ .poll wid me cx c) : o.s.getW wid = some w :=
+  step_frame_queued fin (reach_Inv h0 hr).1 h hw hq hop
+
 /-- task 2 polls an `Acquire` created by task 1: the waiter follows the poller -/
 example : (finalOf fin0 (SemState.new 0 true []) [.newAcq 1 1 [], .poll 0 1 1 [], .poll 0 2 2 []]).s.table.map
     (fun w => (w.taskId, w.waker)) = [(2, some 2)] := by decide
 example : effsOf fin0 (SemState.new 0 true [])
     [.newAcq 1 1 [], .poll 0 1 1 [], .poll 0 2 2 [], .release 3 1 []]
     = [[], [], [], [.joinClock 2 [], .unblock 2, .wake 2]] := by decide
+
+/-! ### the internal assertions of batch_semaphore.rs never fail -/
+
+/-- In every reachable state: (a) a waiter that is not queued has no waker registered unless it
+holds permits, is completed, or the semaphore is closed (`assert_eq!(is_queued, waker.is_some())`
+of `Acquire::poll`, together with `source_invariants_1_to_4`); (b) every operation of the client is
+defined — none of the `assert!`/`expect`/`unreachable!` of `poll`, `remove_waiter`,
+`unblock_waiters_from_front`, `close` can fail — with the single exception of
+`assert!(num_permits > 0)` in `acquire_permits` (`try_acquire(0)`, or polling `acquire(0)` on an
+open semaphore), and of polling an `Acquire` that is completed or gone (excluded by `&mut self` /
+`assert!(!self.completed)`). -/
+theorem no_internal_assertion_fails {n : Nat} {s0 : SemState} (h0 : Initial n s0) {g : G}
+    (hr : Reach s0 g) (fin : Nat → Bool) :
+    (∀ w ∈ g.s.table, w.isQueued = false →
+      w.waker = none ∨ w.hasPermits = true ∨ w.completed = true ∨ g.s.closed = true) ∧
+    (∀ task k c, 0 < k → ∃ o, step fin g.s (.tryAcquire task k c) = .ok o) ∧
+    (∀ wid me cx c w0, g.s.getW wid = some w0 → w0.completed = false →
+      (0 < w0.n ∨ w0.hasPermits = true ∨ g.s.closed = true) →
+      ∃ o, step fin g.s (.poll wid me cx c) = .ok o) ∧
+    (∀ task wid, ∃ o, step fin g.s (.dropAcquire task wid) = .ok o) ∧
+    (∀ task k c, ∃ o, step fin g.s (.release task k c) = .ok o) ∧
+    (∀ task k, ∃ o, step fin g.s (.poisonRelease task k) = .ok o) ∧
+    (∃ o, step fin g.s .close = .ok o) ∧
+    (∀ task k c, ∃ o, step fin g.s (.newAcq task k c) = .ok o) := by
+  have hi := reach_Inv2 h0 hr
+  refine ⟨fun w hw hq => hi.wok w hw (by simp) hq,
+    fun task k c hk => step_progress fin hi (.tryAcquire task k c) hk,
+    fun wid me cx c w0 hw hnc hn => step_progress fin hi (.poll wid me cx c) ⟨w0, hw, hnc, hn⟩,
+    fun task wid => step_progress fin hi (.dropAcquire task wid) trivial,
+    fun task k c => step_progress fin hi (.release task k c) trivial,
+    fun task k => step_progress fin hi (.poisonRelease task k) trivial,
+    step_progress fin hi .close trivial,
+    fun task k c => step_progress fin hi (.newAcq task k c) trivial⟩
+
+/-- the one assertion that CAN fail: `try_acquire(0)` panics (the std/tokio semaphores accept 0) -/
+theorem try_acquire_zero_panics (fin : Nat → Bool) (s : SemState) (task : Nat) (c : Clock) :
+    step fin s (.tryAcquire task 0 c) = .error "assertion failed: num_permits > 0" := rfl
+
+example : ∃ g, Reach (SemState.new 2 true []) g ∧ g.s.queue = [0, 1] ∧
+    (∃ o, step fin0 g.s (.dropAcquire 2 0) = .ok o) :=
+  ⟨finalOf fin0 _ (opsFair.take 5), finalOf_reach (by decide), by decide, _, rfl⟩
+
+/-! ### the steps of the client are the segments of the wrappers -/
+
+/-- Where the scheduling points of the `Prog` wrappers are: `try_acquire`, `release`, `close` are
+ONE `thread::switch()` followed by a body without scheduling point; `Acquire::new` has none;
+`Acquire::poll` reads the state, yields at most once, and then runs `Sem.pollBody` — i.e.
+`SemState.pollPure` on the state it re-reads, followed by the kernel effects — without scheduling
+point. By `atomic_total_order`-style reasoning (`runSegment_switchFree`) each body runs inside one
+segment: these bodies are the steps `tryAcquire` / `release` / `poisonRelease` / `close` /
+`newAcq` / `poll` of `SemLts.step`. -/
+theorem wrappers_atomic_granularity {U : Type} (L : Lens U SemState) :
+    (∀ k, Sem.tryAcquire L k = Prog.op .switch (fun _ => Sem.tryAcquireBody L k) ∧
+      (Sem.tryAcquireBody L k).SwitchFree) ∧
+    (∀ k, Sem.release L k = Prog.op .switch (fun _ => Sem.releaseBody L k) ∧
+      (Sem.releaseBody L k).SwitchFree) ∧
+    (Sem.close L = Prog.op .switch (fun _ => Sem.closeNoSwitch L) ∧ (Sem.closeNoSwitch L).SwitchFree) ∧
+    (∀ k, (Sem.newAcquire L k).SwitchFree) ∧
+    (∀ wid cx, (Sem.pollBody L wid cx).SwitchFree ∧
+      Sem.poll L wid cx = (do
+        let s ← K.getL L
+        match s.getW wid with
+        | none => K.panic "poll: unknown Acquire"
+        | some w =>
+          if w.completed then K.panic "assertion failed: !self.completed"
+          else if w.neverPolled && ((w.hasPermits || s.closed || s.avail ≥ w.n) || s.fair)
+            then Prog.op .switch (fun _ => Sem.pollBody L wid cx)
+            else Sem.pollBody L wid cx)) :=
+  ⟨fun k => ⟨Sem.tryAcquire_eq L k, Sem.tryAcquireBody_switchFree L k⟩,
+   fun k => ⟨Sem.release_eq L k, Sem.releaseBody_switchFree L k⟩,
+   ⟨Sem.close_eq L, Sem.closeNoSwitch_switchFree L⟩,
+   fun k => Sem.newAcquire_switchFree L k,
+   fun wid cx => ⟨Sem.pollBody_switchFree L wid cx, Sem.poll_eq L wid cx⟩⟩
 
 end C18
 end ShuttleModel
